@@ -26,7 +26,7 @@ PROPS = {
                              "error bounds: mean 2(n+4)eps*A; S 8n*eps*(S+A*sqrt(nS))+4n^3eps^2A^2 (Welford/pairwise bound)"]),
 }
 
-HOOK_COMMITS = []
+HOOK_COMMITS = ["6203c3e4032b5e35344eee56bc8020982a6abdeb"]
 
 MANIFEST_TEXT = {
     "C01": dict(
